@@ -168,7 +168,7 @@ Proof.
         eapply Forall_impl2; [|exact H|exact HF]; intros x Hx Hv; apply (Hx None None Hv) end. }
     rewrite Hl. simpl. rewrite Hm. reflexivity.
   - (* Par *)
-    simpl. match goal with Hv : Valid arr c |- _ => apply (IHc arr rn Hv) end.
+    cbn [form_of_p type_of_p por]. eapply IHc. eassumption.
 Qed.
 
 (* ---------------------------------------------------------------- carry keeps the type *)
@@ -185,18 +185,13 @@ Proof.
   induction 1 as [|c cs Hc Hcs IH]; intros cs' H.
   - inversion H. reflexivity.
   - destruct (carry c ix) as [y|] eqn:Ey; [|discriminate]. simpl in H.
-    match type of H with context [(fix all (l : list content) := _) cs] =>
-      destruct ((fix all (l : list content) : res (list content) :=
-                   match l with
-                   | [] => Ok []
-                   | x :: xs => do y <- carry x ix; do ys <- all xs; Ok (y :: ys)
-                   end) cs) as [ys|] eqn:Eys end; [|discriminate].
+    match type of H with bind ?X _ = _ => destruct X as [ys|] eqn:Eys end; [|discriminate].
     simpl in H. inversion H; subst. simpl. rewrite (Hc None ix y Ey). rewrite (IH ys eq_refl). reflexivity.
 Qed.
 
 Theorem carry_preserves_type c : forall p ix c', carry c ix = Ok c' -> type_of_p p c' = type_of_p p c.
 Proof.
-  induction c using content_ind'; intros p ix' c' H; simpl in H.
+  induction c as [ | | | | | | | | | | w t ix cs HF | cs ks n HF | ] using content_ind'; intros p ix' c' H; simpl in H.
   - destruct shape as [|n dims]; [discriminate|].
     destruct (mapM _ ix') as [rows|]; [|discriminate]. simpl in H. inversion H; subst. reflexivity.
   - destruct ix'; inversion H; reflexivity.
@@ -212,8 +207,8 @@ Proof.
   - destruct (gather m ix'); [|discriminate]. simpl in H.
     destruct (carry c ix') as [c''|] eqn:Ec; [|discriminate]. simpl in H. inversion H; subst.
     simpl. rewrite (IHc None _ _ Ec). reflexivity.
-  - destruct (bytemask_of_bits m lsb n); [|discriminate]. simpl in H.
-    destruct (gather l ix'); [|discriminate]. simpl in H.
+  - destruct (bytemask_of_bits m lsb n) as [bm|]; [|discriminate]. simpl in H.
+    destruct (gather bm ix'); [|discriminate]. simpl in H.
     destruct (carry c ix') as [c''|] eqn:Ec; [|discriminate]. simpl in H. inversion H; subst.
     simpl. rewrite (IHc None _ _ Ec). reflexivity.
   - destruct (carry c ix') as [c''|] eqn:Ec; [|discriminate]. simpl in H. inversion H; subst.
@@ -221,15 +216,10 @@ Proof.
   - destruct (gather t ix'); [|discriminate]. simpl in H.
     destruct (gather (take (zlen t) ix) ix'); [|discriminate]. simpl in H. inversion H; subst. reflexivity.
   - destruct (forallb _ ix'); [|discriminate].
-    match type of H with context [(fix all (l : list content) := _) cs] =>
-      destruct ((fix all (l : list content) : res (list content) :=
-                   match l with
-                   | [] => Ok []
-                   | x :: xs => do y <- carry x ix'; do ys <- all xs; Ok (y :: ys)
-                   end) cs) as [cs'|] eqn:Ecs end; [|discriminate].
+    match type of H with bind ?X _ = _ => destruct X as [cs'|] eqn:Ecs end; [|discriminate].
     simpl in H. inversion H; subst. simpl. f_equal.
     apply (carry_all_types cs ix'); [|exact Ecs].
-    eapply Forall_impl; [|exact H0]. intros x Hx. exact Hx.
+    eapply Forall_impl; [|exact HF]. intros x Hx. exact Hx.
   - destruct (carry c ix') as [c''|] eqn:Ec; [|discriminate]. simpl in H. inversion H; subst.
     simpl. apply (IHc arr _ _ Ec).
 Qed.
